@@ -81,6 +81,8 @@ func Families(quick bool) []*Schema {
 	f6.Root(&Type{Name: "EI", Kind: TEnum, ERepr: "int", EMembers: []string{"Zero", "One", "Minus"}, EInt: map[string]int{"Zero": 0, "One": 1, "Minus": -7}})
 	f6.Root(structT("HasE", "map", fld("e", "ES", true, false), fld("i", "EI", false, true)))
 	f6.Root(&Type{Name: "MapE", Kind: TMap, KeyType: "String", ValType: "EI"})
+	// a map keyed by an enum whose members have representation strings of their own
+	f6.Root(&Type{Name: "MapEK", Kind: TMap, KeyType: "ES", ValType: "Int"})
 	// an enum member with a representation string of its own inside a stringjoin struct
 	f6.Root(structT("SJE", "stringjoin", fld("e", "ES", false, false), fld("s", "String", false, false)))
 	out = append(out, f6)
@@ -97,6 +99,10 @@ func Families(quick bool) []*Schema {
 	f7.Root(&Type{Name: "ListL", Kind: TList, ValType: "ListI"})
 	f7.Root(&Type{Name: "MapL", Kind: TMap, KeyType: "String", ValType: "ListI"})
 	f7.Root(&Type{Name: "MapM", Kind: TMap, KeyType: "String", ValType: "MapSI", ValNullable: true})
+	// maps whose keys are a struct with a string representation
+	f7.Add(structT("KSJ", "stringjoin", fld("a", "String", false, false), fld("b", "String", false, false)))
+	f7.Root(&Type{Name: "MapKI", Kind: TMap, KeyType: "KSJ", ValType: "Int"})
+	f7.Root(&Type{Name: "MapKPt", Kind: TMap, KeyType: "KSJ", ValType: "Pt", ValNullable: true})
 	// nullable values whose generated Maybe is pointer-backed (structs)
 	f7.Root(&Type{Name: "ListNPt", Kind: TList, ValType: "Pt", ValNullable: true})
 	f7.Root(&Type{Name: "MapSNPt", Kind: TMap, KeyType: "String", ValType: "Pt", ValNullable: true})
